@@ -90,7 +90,7 @@ def gen_sequences(rng, cfgs, classes, tier):
     """returns list of (cfgname, nv, raw op tokens)"""
     ncls = len(classes)
     seqs = []
-    nrand = 260 if tier == "quick" else 2500
+    nrand = 200 if tier == "quick" else 2500
     for (name, kind, isz, ial, req) in cfgs:
         for _ in range(nrand):
             nv = rng.randint(2, 4)
@@ -112,6 +112,9 @@ def gen_sequences(rng, cfgs, classes, tier):
                     seqs.append((name, 3, base + ["MA:0:1:%d" % arm, "IV:0", "IV:1", "MA:1:0:%d" % arm, "IV:1", "MA:1:1:1", "IV:0"]))
                     seqs.append((name, 3, base + ["SW:0:1:%d" % arm, "IV:0", "IV:1", "SW:0:0:%d" % arm, "IV:0", "MC:2:1:%d" % arm, "SW:1:2:0", "IV:2"]))
                     seqs.append((name, 3, base + ["AV:0:%d:9:%d" % (c2, arm), "IV:0", "MC:2:0:0", "AV:0:%d:8:%d" % (c, arm), "IV:0", "MA:2:0:0", "IV:2", "IV:0"]))
+    # the run of Example C18_ex_object_trace / C18_ex_unique_trace in coq/Properties_C18_anybox.v
+    for (name, kind, isz, ial, req) in cfgs:
+        seqs.append((name, 3, "N:0:1:5:I:0 N:1:4:6:C:0 MA:1:0:1 IV:0 MC:2:0:0 IV:0 SW:0:2:0 AV:0:4:9:2 PK:2:3:1".split()))
     return seqs
 
 
@@ -185,9 +188,29 @@ def run_probes(chk):
     chk.cov["probes"] = res
 
 
+def private_copy(exe):
+    """other checks prune the shared build cache concurrently: run from a copy in our own out/ directory"""
+    import shutil
+    d = os.path.join(vlib.OUT, "C18", "bin"); os.makedirs(d, exist_ok=True)
+    p = os.path.join(d, os.path.basename(exe) + "_" + vlib.repo_hash()[:8])
+    if not os.path.exists(p):
+        shutil.copy2(exe, p + ".tmp%d" % os.getpid()); os.rename(p + ".tmp%d" % os.getpid(), p)
+    for f in os.listdir(d):                      # keep the directory small
+        q = os.path.join(d, f)
+        if q != p and time.time() - os.path.getmtime(q) > 3600:
+            try: os.remove(q)
+            except OSError: pass
+    return p
+
+
 def run_part_a(chk, replay=None):
     t0 = time.time()
     exe, err = vlib.build_driver("k3_anybox", "plain17")
+    if not err:
+        try:
+            exe = private_copy(exe)
+        except OSError as ex:
+            exe, err = None, "cache entry vanished while copying: %r" % ex
     if err:
         p = chk.replay_file("build", {"kind": "build-failure", "error": err})
         chk.violation("anybox/build", p, no_input=True, text="harness/k3_anybox.cpp no longer compiles against /repo: " + err[-300:].replace("\n", " "))
